@@ -32,6 +32,9 @@ var synNums = []string{"0E5", "00E1", "0E-3", "0.0E5", "0", "1", "2", "42", "007
 // integer spellings around the widths integers are stored in
 var synInts = []string{"0", "00", "007", "2147483647", "2147483648", "4294967295", "4294967296", "9007199254740993", "9223372036854775807", "9223372036854775808", "18446744073709551615",
 	"18446744073709551616", "99999999999999999999999", "0x0", "0x7fffffff", "0x80000000", "0xFFFFFFFF", "0x7fffffffffffffff", "0x8000000000000000", "0xffffffffffffffff", "0x00000000000000000ff", "0X10"}
+// IntSpellings are the integer literal spellings the directed families use.
+var IntSpellings = synInts
+
 var synStrs = [][2]string{{`'s'`, "s"}, {`"t"`, "t"}, {`''`, ""}, {`'it\'s'`, "it's"}, {`"a\nb"`, "a\nb"}, {`'a"b'`, `a"b`}, {`"x\\y"`, `x\y`},
 	{`'é;|)'`, "é;|)"}, {`"// no comment"`, "// no comment"}, {`'\t'`, "\t"}, {"'a\xffb'", "a\xffb"}, {`'\q'`, "q"}}
 var joinKinds = []string{"", "", "inner", "innerunique", "leftouter"}
